@@ -110,6 +110,13 @@ PROPS = {
         "not_decided": ["serde_yaml / regex / globset internals; stack depth for deeply nested YAML"],
         "assumptions": [],
     },
+    "C13": {
+        "units": [("scan", r"into_result")],
+        "kani": [],
+        "decided": ["ScanResultInner::into_result: the per-rule findings of a document leave the hash map in the RULES' order (by rule index, i.e. by (has fix, id) as CombinedScan::new sorted them) -- the same in every run and for every hash seed; with the unused-suppression rule and separate fixes the fixable findings are ordered by start offset"],
+        "not_decided": ["topological order of utils / transforms (TopologicalSort over HashMap<&str, _>: recursion through closures over string-keyed maps), reordering of rule files, RuleCollection::for_path, snapshot files (serde with ordered maps)", "that rule ids are distinct (duplicate ids are rejected elsewhere)"],
+        "assumptions": ["sort_unstable_by_key sorts (std)"],
+    },
     "C14": {
         "units": [("combined", r"MaySuppressed|Suppressions"), "scan"],
         "kani": [],
